@@ -106,13 +106,16 @@ type pkgInfo struct {
 
 // survivingReqs applies the documented filter to a version's requirements.
 func survivingReqs(reqs []resolve.RequirementVersion) []resolve.RequirementVersion {
+	// package.json sections are keyed by the dependency's name (the alias, if
+	// aliased): an optionalDependencies entry overrides the dependencies entry
+	// of the same name, and a bundleDependencies entry names a dependency.
 	reg, opt := map[string]bool{}, map[string]bool{}
 	for _, d := range reqs {
 		if d.Type.HasAttr(dep.Dev) {
 			continue
 		}
 		if d.Type.HasAttr(dep.Opt) {
-			opt[d.Name] = true
+			opt[depName(d.Type, d.Name)] = true
 		}
 		if d.Type.IsRegular() {
 			reg[d.Name] = true
@@ -123,7 +126,7 @@ func survivingReqs(reqs []resolve.RequirementVersion) []resolve.RequirementVersi
 		if d.Type.HasAttr(dep.Dev) {
 			continue
 		}
-		if !d.Type.HasAttr(dep.Opt) && opt[d.Name] {
+		if !d.Type.HasAttr(dep.Opt) && opt[depName(d.Type, d.Name)] {
 			continue
 		}
 		switch scope, _ := d.Type.GetAttr(dep.Scope); scope {
